@@ -1,5 +1,6 @@
 import Fabio.Driver.Proto
 import Fabio.Model.C20Spec
+import Fabio.Model.C20Capture
 /-!
 Driver handlers for C20. For every stream: `model` = output of the Lean model on the case's input,
 `agree` = equals the implementation's output, `spec` = the specification (`Model/C20Spec.lean`: built on
@@ -463,7 +464,91 @@ def concurrentH : Handler := fun inp impl => do
     else if workers ≥ 2 then "intact" else "single-thread"
   return ({ model := m, agree := m == ci, spec := spec, nontrivial := workers ≥ 2 && wellSeparated items, tag := tag } : Verdict).toJson
 
+/-! ### the capturing responseWriter -/
+
+open Fabio.Model.C20Capture in
+def captureH : Handler := fun inp impl => do
+  let opsJ ← inp.getObjValAs? (Array Json) "ops"
+  let flusher := (inp.getObjValAs? Bool "flusher").toOption.getD false
+  let short := (inp.getObjValAs? Nat "short").toOption.getD 0
+  let ops ← opsJ.toList.mapM fun j => do
+    let op ← j.getObjValAs? String "op"
+    match op with
+    | "header" => pure (RWOp.header ((j.getObjValAs? Nat "code").toOption.getD 0))
+    | "write" =>
+      let n := (j.getObjValAs? Nat "n").toOption.getD 0
+      pure (RWOp.write n (if short > 0 && n > short then short else n))
+    | "flush" => pure RWOp.flush
+    | "set" => pure (RWOp.set (optStr j "k") (optStr j "v"))
+    | _ => throw "unknown op"
+  let show1 : RWOp → String
+    | .header c => s!"H{c}"
+    | .write o a => s!"W{o}:{a}"
+    | .flush => "F"
+    | .set k v => "S" ++ String.ofList (canonicalKey true k) ++ "=" ++ String.ofList v
+  let toJ (calls : List RWOp) (code size : Nat) : Json :=
+    Json.mkObj [("calls", Json.arr (calls.map fun o => Json.str (show1 o)).toArray), ("code", code), ("size", size)]
+  let c := captureRun flusher ops
+  let m := toJ c.forwarded c.code c.size
+  let ci := canonImpl impl
+  -- specification, stated on the script: the client connection sees every call, the log sees the last status
+  let want := toJ (visible flusher ops) ((statuses ops).getLast?.getD 0) (accepted ops)
+  let sts := statuses ops
+  let tag := if isPanicJ impl then "panic"
+    else if sts.isEmpty then "no-status"
+    else if sts.length ≥ 2 && sts.dropLast.all (· < 200) then "informational-then-final"
+    else if sts.length ≥ 2 then "repeated-status" else "single-status"
+  return ({ model := m, agree := m == ci, spec := ci == want, nontrivial := !sts.isEmpty, tag := tag } : Verdict).toJson
+
+/-! ### formatters called from many goroutines at once -/
+
+def reentrantSum (workers per salt : Nat) (fu : List UInt8 → Option (List Char)) (f16 : Nat → Option (List Char))
+    (f32 : Int → Option (List Char)) (f64 : Int → Nat → Option (List Char)) : Option UInt64 := Id.run do
+  let mut acc : UInt64 := 0
+  let line (s : List Char) : UInt64 := fnvString (String.ofList (s ++ ['\n']))
+  for g in [0:workers] do
+    for i in [0:per] do
+      let u : List UInt8 := (List.range 24).map fun k => UInt8.ofNat ((g * 131 + i * 31 + k * 17 + salt) % 256)
+      let n16 := (g * 4099 + i * 257 + salt) % 65536
+      let n32 : Int := ((g * 1000003 + i * 7919 + salt * 97) % 4294967296 : Nat) - 2147483648
+      let n64a : Int := ((g * 1000000007 + i * 104729 + salt) * 1000003 : Nat)
+      let n64 : Int := if (g + i) % 2 == 1 then -n64a else n64a
+      match fu u, f16 n16, f32 n32, f64 n64 (i % 10) with
+      | some a, some b, some c, some d => acc := acc + line a + line b + line c + line d
+      | _, _, _, _ => return none
+  return some acc
+
+def okOpt {α} : Fabio.Outcome α → Option α
+  | .ok a => some a
+  | .panic _ => none
+
+def reentrantH : Handler := fun inp impl => do
+  let workers ← inp.getObjValAs? Nat "workers"
+  let per ← inp.getObjValAs? Nat "per"
+  let salt ← inp.getObjValAs? Nat "salt"
+  if workers > 64 || per > 2000 then throw "workers/per out of range"
+  let msum := reentrantSum workers per salt (fun u => okOpt (uuidToString u)) (fun n => okOpt (uint16base16 n))
+    (fun n => okOpt (i32toa n)) (fun n p => okOpt (atoi n p))
+  let rsum := reentrantSum workers per salt (fun u => some (Spec.uuidText u)) (fun n => some (Spec.hex4 n))
+    (fun n => some (toString n).toList) (fun n p => some (Spec.decimal n p))
+  let total : Nat := workers * per * 4
+  let m := Json.mkObj [("n", total), ("sum", (msum.map hex64).getD "panic")]
+  if isPanicJ impl then
+    return ({ model := m, agree := false, spec := false, nontrivial := true, tag := "panic" } : Verdict).toJson
+  let n ← impl.getObjValAs? Nat "n"
+  let isum ← impl.getObjValAs? String "sum"
+  let get (k : String) : Nat := (impl.getObjValAs? Nat k).toOption.getD 1
+  let ci := Json.mkObj [("n", n), ("sum", isum)]
+  let tag := if get "bad_uuid" != 0 then "uuid-of-another-caller"
+    else if get "bad_hex" != 0 || get "bad_i32" != 0 || get "bad_atoi" != 0 then "number-of-another-caller"
+    else if rsum.map hex64 != some isum then "sum-differs"
+    else if workers ≥ 2 then "concurrent" else "single-thread"
+  let spec := get "bad_uuid" == 0 && get "bad_hex" == 0 && get "bad_i32" == 0 && get "bad_atoi" == 0 &&
+    n == workers * per * 4 && rsum.map hex64 == some isum
+  return ({ model := m, agree := m == ci, spec := spec, nontrivial := workers ≥ 2, tag := tag } : Verdict).toJson
+
 def streams : List (String × Handler) := [
   ("c20.atoi", atoiH), ("c20.i32toa", i32toaH), ("c20.i32block", i32blockH), ("c20.i32sweep", i32sweepH), ("c20.uint16", uint16H),
-  ("c20.uuid", uuidH), ("c20.hostport", hostportH), ("c20.parse", parseH), ("c20.render", renderH), ("c20.concurrent", concurrentH)]
+  ("c20.uuid", uuidH), ("c20.hostport", hostportH), ("c20.parse", parseH), ("c20.render", renderH), ("c20.concurrent", concurrentH),
+  ("c20.capture", captureH), ("c20.reentrant", reentrantH)]
 end Fabio.Driver.C20
